@@ -18,6 +18,9 @@ CHECKS = {
  "C05": dict(cat="exploration", tech="property-based safety checking: all three generated kernel kinds executed on a trapping IR abstract machine (bounds, initialisation, ownership, int32 range, deterministic step budget) at initial capacities 1,2,3,default; thorough adds gcc ASan+UBSan on the emitted C",
    text="Every load, store and reallocation of generated evaluate/assemble/compute kernels is checked on the abstract machine; inputs are compared before/after; returned arrays must be live and long enough. Exploration within bounds (sizes<=4, order<=3).",
    note="Trusted: abstract machine trap rules (validated against gcc/LLVM by C06 and by selftest snippets).", ref="DESIGN.md §3 C05"),
+ "C06": dict(cat="translation_validation", tech="three-way differential testing (translation validation per program): emitted C compiled with clang/gcc under ASan+UBSan vs tensora's LLVM JIT vs the IR abstract machine, bit-for-bit, on generated kernels and on Hypothesis-generated well-typed IR programs",
+   text="Each generated kernel module and each generated IR program is translated by both back ends and executed on the same inputs; structure arrays and the 64-bit patterns of all values must agree with each other and with direct execution of the IR. The emitted C must compile under -std=c11 with the strict -Werror set and the LLVM module must verify. Per-program validation, not a proof about the printers.",
+   note="Trusted: clang 14 / gcc 12 and LLVM MCJIT as faithful executors of their input; the abstract machine as the IR's reference semantics (its disagreement with both back ends would show as a split with the machine as odd one out).", ref="DESIGN.md §3 C06"),
 }
 def main():
     checks = []
